@@ -280,6 +280,96 @@ def h_xml_discussion(I, job):
     I.reach('end')
 
 
+TS = 1420070400      # 2015-01-01T00:00:00Z
+UNDEF32 = 2147483647
+
+
+def perm(lst, k):
+    """k-th of a fixed family of orders: identity, reversed, rotations, adjacent swaps"""
+    n = len(lst); fam = [list(range(n)), list(range(n))[::-1]] + [[(i + r) % n for i in range(n)] for r in range(1, n)]
+    for i in range(n - 1):
+        q = list(range(n)); q[i], q[i + 1] = q[i + 1], q[i]; fam.append(q)
+    return [lst[i] for i in fam[k % len(fam)]]
+
+
+def h_xml_objects(I, job):
+    """schema-conformant XML as an element script: node / way / relation with metadata attributes in a symbolic choice of order, symbolic digits in the numeric attributes, change sections, bounds"""
+    import C03
+    from xmlenc import S, E, C, run_script, digit, dval, dig, below, Reader
+    kind = job['kind']
+    idd = [digit(I, 'id0', 1), digit(I, 'id1')]; ver = [digit(I, 'ver', 1)]; uid = [digit(I, 'uid0', 1), digit(I, 'uid1')]; cs = [digit(I, 'cs0', 1), digit(I, 'cs1')]
+    neg = I.concretize(I.named('negid', 1), 'negative id')
+    vis = I.concretize(I.named('visible', 1), 'visible attribute') if not job.get('section') else 1
+    attrs = [('id', ([ord('-')] if neg else []) + idd), ('version', ver), ('timestamp', '2015-01-01T00:00:00Z'), ('uid', uid), ('user', 'usr'), ('changeset', cs)]
+    if not job.get('section'): attrs.append(('visible', 'true' if vis else 'false'))
+    latd = digit(I, 'latd')
+    if kind == 'node': attrs += [('lat', [ord('4'), latd, '.25']), ('lon', '-1.5')]
+    attrs.append(('unknown', 'zzz'))                       # attributes the reader does not know are ignored
+    pk = I.named('order', 8); nperm = 2 * len(attrs)
+    below(I, pk, 8, nperm); pk = I.concretize(pk, 'attribute order')
+    attrs = perm(attrs, pk)
+    body = []; refs = []; mtypes = []
+    if kind == 'way':
+        for k in range(2):
+            r = [digit(I, 'ref%d0' % k, 1), digit(I, 'ref%d1' % k)]; refs.append(r)
+            body += [S('nd', perm([('ref', r)], 0)), E]
+    if kind == 'relation':
+        for k in range(2):
+            r = [digit(I, 'ref%d0' % k, 1), digit(I, 'ref%d1' % k)]; refs.append(r)
+            mt = I.named('mtype%d' % k, 8); I.assume(z3.Or([I.term(mt, 8) == ord(c) for c in 'nwr'])); mt = I.concretize(mt, 'member type'); mtypes.append(mt)
+            body += [S('member', perm([('type', [[ord('n'), 'ode'], [ord('w'), 'ay'], [ord('r'), 'elation']][{110: 0, 119: 1, 114: 2}[mt]]), ('ref', r), ('role', 'ro' if k else '')], pk + k)), E]
+    body += [S('tag', perm([('k', 'key'), ('v', 'va l')], pk)), E]
+    obj = [S(kind, attrs)] + body + [E]
+    sec = job.get('section')
+    if sec: ev = [S('osmChange', perm([('version', '0.6'), ('generator', 'g')], pk))] + [S(sec), ] + obj + [E, E]
+    else: ev = [S('osm', perm([('version', '0.6'), ('generator', 'g'), ('upload', 'false')], pk))] + obj + [E]
+    rc, out, n, hdr = run_script(I, ev)
+    I.observe('rc', rc)
+    if rc != 0: raise Finding('rejects-valid', 'schema-conformant XML rejected (rc=%d)' % rc)
+    R = Reader(I, out, n)
+    if n == 0: raise Finding('object-count', 'no object delivered')
+    tcode = {'node': 1, 'way': 2, 'relation': 3}[kind]
+    R.expect(tcode, 'type', 'object type')
+    idv = dval(I, idd)
+    R.expect(-idv if neg else idv, 'id', 'id attribute (any attribute order, negative ids)')
+    R.expect(dval(I, ver), 'version', 'version attribute')
+    R.expect(0 if sec == 'delete' else (1 if vis else 0), 'visible', 'visible flag (attribute, or false inside a <delete> section)')
+    R.expect(TS, 'timestamp', 'timestamp attribute'); R.expect(dval(I, cs), 'changeset', 'changeset attribute'); R.expect(dval(I, uid), 'uid', 'uid attribute')
+    R.string('usr', 'user')
+    if kind == 'node':
+        lat = (40 + dig(I, latd)) * 10000000 + 2500000
+        R.expect((-15000000) & 0xffffffff, 'location', 'lon attribute'); R.expect(lat, 'location', 'lat attribute')
+    if kind == 'way':
+        R.expect(2, 'nodes', 'number of node references')
+        for k in range(2): R.expect(dval(I, refs[k]), 'nodes', 'nd ref %d' % k); R.expect(UNDEF32, 'nodes', 'nd without location x'); R.expect(UNDEF32, 'nodes', 'nd without location y')
+    if kind == 'relation':
+        R.expect(2, 'members', 'number of members')
+        for k in range(2):
+            R.expect({110: 1, 119: 2, 114: 3}[mtypes[k]], 'members', 'member %d type' % k); R.expect(dval(I, refs[k]), 'members', 'member %d ref' % k); R.string('ro' if k else '', 'member %d role' % k)
+    R.expect(1, 'tags', 'number of tags'); R.string('key', 'tag key'); R.string('va l', 'tag value')
+    R.done()
+    if sec and I.concretize(I.load(hdr + 4 * 17, i32), 'flag') != 1: raise Finding('header', 'change file not flagged as having multiple object versions')
+    I.reach('end')
+
+
+def h_xml_bounds(I, job):
+    """<bounds> with its four attributes in any order -> header box"""
+    from xmlenc import S, E, run_script, digit
+    d = [digit(I, 'd%d' % k) for k in range(4)]
+    attrs = [('minlat', [ord('1'), d[0], '.5']), ('minlon', ['-2', d[1]]), ('maxlat', ['3', d[2], '.25']), ('maxlon', ['4', d[3]])]
+    pk = I.named('order', 8); I.assume(z3.ULT(I.term(pk, 8), 8)); pk = I.concretize(pk, 'attribute order')
+    ev = [S('osm', [('version', '0.6')]), S('bounds', perm(attrs, pk)), E, S('node', [('id', '1'), ('lat', '1'), ('lon', '1')]), E, E]
+    rc, out, n, hdr = run_script(I, ev)
+    if rc != 0: raise Finding('rejects-valid', 'schema-conformant XML rejected (rc=%d)' % rc)
+    nb = I.concretize(I.load(hdr, i32), 'boxes')
+    if nb != 1: raise Finding('header', '%d header boxes for one <bounds> element' % nb)
+    dv = [z3.ZeroExt(24, I.term(x, 8)) - 48 for x in d]
+    want = [-(20 + dv[1]) * 10000000, (10 + dv[0]) * 10000000 + 5000000, (40 + dv[3]) * 10000000, (30 + dv[2]) * 10000000 + 2500000]
+    for k, nm in enumerate(('minlon', 'minlat', 'maxlon', 'maxlat')):
+        I.obligation(I.term(I.load(hdr + 4 * (1 + k), i32), 32) == want[k], 'header', 'bounding box %s differs from the attribute' % nm)
+    I.reach('end')
+
+
 def gen28(names):
     def g(rnd):
         return [{n: rnd.choice([0, 1, 2, 3, (1 << 28) - 1, rnd.getrandbits(28), rnd.getrandbits(10)]) for n in names} for _ in range(12)]
@@ -313,5 +403,12 @@ def harnesses(tier):
                 tests=[dict(_job=0, ev0=1, ev1=2, ev2=6, ev3=6, ch0=65, ch1=66, ch2=67)],
                 desc='XMLParser element callbacks on every schema-conformant event script inside <changeset> (one <discussion> with <comment>s, at most one <text> each, character data delivered in one or several pieces with symbolic bytes, <tag>s): the delivered changeset has exactly the script\'s tags and comments, each comment text being the concatenation of its character-data pieces',
                 bounds='event scripts of the listed lengths (<= %d) over 7 event kinds, 3 symbolic character bytes; expat itself (tokenising, entity decoding, attribute order) is not encoded' % (7 if tier == 'quick' else 9)),
+        Harness('xml_objects', 'xml', h_xml_objects, mode='INT', setup=__import__('C03').setup_xml, wall=900,
+                jobs=[dict(kind='node'), dict(kind='way'), dict(kind='relation'), dict(kind='node', section='delete'), dict(kind='way', section='modify')] + ([] if tier == 'quick' else [dict(kind='relation', section='delete'), dict(kind='node', section='create'), dict(kind='relation', section='modify'), dict(kind='way', section='delete')]),
+                tests=[dict(_job=0, id0=49, id1=50, ver=51, uid0=52, uid1=53, cs0=54, cs1=55, negid=0, visible=1, latd=56, order=0)],
+                desc='XMLParser element callbacks on a node / way / relation (with nd / member / tag children) inside <osm> or an <osmChange> create / modify / delete section: the metadata attributes arrive in a symbolic choice among 2n orders (identity, reversed, rotations, adjacent swaps) with an unknown attribute in between, numeric attributes have symbolic digits, ids may be negative, member types n / w / r: every delivered field equals the attribute, objects in <delete> are invisible, change files are flagged',
+                bounds='one object per script; two-digit ids / uids / changesets / refs, one-digit version and latitude digit; expat (tokenising, entities, encoding) is not encoded'),
+        Harness('xml_bounds', 'xml', h_xml_bounds, setup=__import__('C03').setup_xml,
+                desc='<bounds minlat minlon maxlat maxlon> in 8 attribute orders with symbolic digits: the header gets exactly that box', bounds='one bounds element'),
     ]
     return hs
